@@ -18,6 +18,9 @@ RULE = ("A case is one instant + one state; the check walks through *all* ordere
         "JPL shards Moon, Sun, MarsBarycenter, SolarSystemBarycenter. Reference facets draw dates "
         "evenly over 1973-2017.")
 ASSUMPTIONS = [
+    "forms_across_bodies: the reference is the library's own conversion of the *cartesian* state (decided by the "
+    "other facets; closed form for the fixed-offset frames); conics with |e-1| < 1e-3, e > 20, |H| > 8 or within "
+    "0.01 rad of the equator about either body are outside; tolerance 3e-10 x conditioning + 3e-9 relative",
     "oracle: GMST-82, ERA, IAU-76 precession, 35-term IAU-1980 nutation, pole axis in vf/oracles/earth.py "
     "(self-tested on Meeus' worked examples); UT1 / TT readings and x, y, LOD from the independent IERS "
     "reader vf/oracles/iers.py",
@@ -918,6 +921,172 @@ def env_eop_once():
     env.eop("zero")
 
 
+# ----------------------------------------------------------------- facet: element forms across central bodies
+
+FORMS = ["cartesian", "spherical", "cylindrical", "keplerian", "keplerian_eccentric", "keplerian_mean",
+         "keplerian_circular", "keplerian_mean_circular", "equinoctial", "tle"]
+HYP_FORMS = [f for f in FORMS if f not in ("tle", "keplerian_mean_circular")]
+MU_FREE = ("cartesian", "spherical", "cylindrical")
+BODY_RADIUS = {"Moon": 1.7374e6, "Mars": 3.3962e6, "MarsBarycenter": 3.3962e6, "Venus": 6.0518e6,
+               "Mercury": 2.4397e6, "Earth": 6.3781e6, "EME2000": 6.3781e6, "MOD": 6.3781e6, "XM": 1.7374e6}
+# (frame around the smaller body, frame around the body it moves about): a bound or mildly hyperbolic
+# orbit drawn around the first is a reasonable conic around the second as well
+BODY_PAIRS_JPL = [("Moon", "EME2000"), ("Moon", "Earth"), ("Moon", "MOD"), ("Mars", "Sun"),
+                  ("Mars", "SolarSystemBarycenter"), ("MarsBarycenter", "Sun"), ("Venus", "Sun"),
+                  ("Mercury", "SolarSystemBarycenter"), ("Earth", "Sun"), ("EME2000", "SolarSystemBarycenter"),
+                  ("EME2000", "MOD")]
+BODY_PAIRS_OWN = [("XM", "EME2000"), ("XM", "MOD"), ("EME2000", "XS"), ("MOD", "XS"), ("EME2000", "MOD")]
+_own = {}
+
+
+def setup_bodies(shard):
+    from .. import env
+
+    env.eop(("real", "zero")[(shard // 2) % 2])
+    if shard % 2 == 1:
+        env.jpl(with_pck=True)
+        from beyond.env import jpl
+
+        jpl.create_frames()
+    else:
+        # frames on centres that carry another body, at a fixed offset from the Earth's centre
+        from beyond import constants
+        from beyond.frames import center, frames, orient
+
+        for name, body, off in (("XM", constants.Moon, [3.6e8, 1.0e8, 4.0e7, -250.0, 900.0, 350.0]),
+                                ("XS", constants.Sun, [1.4e11, 4.0e10, 2.0e10, -8.0e3, 2.6e4, 1.1e4])):
+            c = center.Center(f"VF{name}", body=body)
+            c.add_link(center.Earth, orient.EME2000, np.array(off))
+            _own[name] = (frames.Frame(f"VF{name}", orient.EME2000, c), np.array(off))
+
+
+def body_frame(name):
+    from beyond.frames import frames
+
+    return _own[name][0] if name in _own else frames.get_frame(name)
+
+
+@st.composite
+def bodies_case(draw, shard, tier):
+    d = D(draw)
+    pairs = BODY_PAIRS_JPL if shard % 2 == 1 else BODY_PAIRS_OWN
+    low, up = pairs[(d.int(0, len(pairs) - 1) + shard // 2) % len(pairs)]
+    hyp = d.int(0, 9) < 3
+    e = d.u(1.1, 3.0) if hyp else (10 ** d.u(-3, -1) if d.int(0, 3) == 0 else d.u(0.05, 0.8))
+    rp = BODY_RADIUS[low] * d.u(1.1, 8.0)
+    anom = d.u(-2.0, 2.0) if hyp else d.u(-TWO_PI_, TWO_PI_)
+    nu = tb.H2nu(anom, e) if hyp else tb.E2nu(tb.solve_kepler_E(anom, e), e)
+    lo, hi = (51700, 57700) if shard % 2 == 1 else (41800, 57700)
+    forms = HYP_FORMS if hyp else FORMS
+    return dict(shard=shard, low=low, up=up, upward=d.coin(),
+                el=dict(rp=rp, e=e, i=d.u(0.1, math.pi - 0.1), raan=d.u(0, TWO_PI_), argp=d.u(0, TWO_PI_), nu=nu),
+                form=forms[(d.int(0, len(forms) - 1) + shard) % len(forms)],
+                mjd=d.int(lo, hi), sod_us=d.int(3000, 83000) * 10**6 + d.int(0, 999999),
+                label=EXACT_LABELS[(d.int(0, 3) + shard) % 4])
+
+
+TWO_PI_ = 2 * math.pi
+
+
+def conditioning(el):
+    """Conditioning of element <-> cartesian maps at this conic (same rule as C01)."""
+    e = el["e"]
+    k = 1.0 / abs(1 - e)
+    if e > 1:
+        k *= math.cosh(el["E"]) ** 2
+    return k / math.sin(el["i"])
+
+
+def check_bodies(case):
+    """A state held in an element form, taken from a frame about one body to a frame about another:
+    the elements must be rebuilt with the *new* body's mu - i.e. changing the frame commutes with
+    reading the cartesian state."""
+    from beyond.orbits import StateVector
+
+    low, up = body_frame(case["low"]), body_frame(case["up"])
+    dt = mkdate(case["mjd"], case["sod_us"], case.get("label", "UTC"))
+    el = case["el"]
+    mu_low = float(low.center.body.mu)
+    cart_low = np.array(tb.kep2cart(el["rp"] / (1 - el["e"]), el["e"], el["i"], el["raan"], el["argp"], el["nu"], mu_low))
+    sv_low = StateVector(list(cart_low), dt, "cartesian", low)
+    if case["upward"]:
+        a_fr, b_fr, sv = low, up, sv_low
+    else:
+        a_fr, b_fr = up, low
+        sv = StateVector(list(np.asarray(sv_low.copy(frame=up).base, float)), dt, "cartesian", up)
+    x_a = np.asarray(sv.base, float)
+    want = np.asarray(sv.copy(frame=b_fr).base, float)  # the cartesian route (decided by the other facets)
+    if case["low"] in _own or case["up"] in _own:
+        # own frames: a fixed offset in EME2000 axes, so the cartesian route has a closed form too
+        def geo(vec, name):  # state relative to the Earth's centre, EME2000 axes
+            if name in _own:
+                return vec + _own[name][1]
+            return np.asarray(StateVector(list(vec), dt, "cartesian", name).copy(frame="EME2000").base, float)
+
+        def rel(vec, name):
+            if name in _own:
+                return vec - _own[name][1]
+            return np.asarray(StateVector(list(vec), dt, "cartesian", "EME2000").copy(frame=name).base, float)
+
+        a_name = case["low"] if case["upward"] else case["up"]
+        b_name = case["up"] if case["upward"] else case["low"]
+        closed = rel(geo(x_a, a_name), b_name)
+        big = max(float(np.linalg.norm(o[:3])) for _, o in _own.values())  # the offsets went through the arithmetic
+        bigv = max(float(np.linalg.norm(o[3:])) for _, o in _own.values())
+        if float(np.linalg.norm(closed[:3] - want[:3])) > 1e-14 * (float(np.linalg.norm(closed[:3])) + big) + 1e-6 or \
+                float(np.linalg.norm(closed[3:] - want[3:])) > 1e-14 * (float(np.linalg.norm(closed[3:])) + bigv) + 1e-9:
+            raise Violation("body-frame-offset", f"{a_name}->{b_name}: cartesian conversion differs from the fixed offset")
+    el_a = tb.cart2elements(x_a, float(a_fr.center.body.mu))
+    el_b = tb.cart2elements(want, float(b_fr.center.body.mu))
+    form = case["form"]
+    same_body = float(a_fr.center.body.mu) == float(b_fr.center.body.mu)
+    cls = [f"form:{form}", "same-mu" if same_body else "other-mu", "up" if case["upward"] else "down"]
+    # forms defined for the conic about *both* bodies, away from the parabola and from the equator
+    usable = True
+    for e_ in (el_a, el_b):
+        if abs(e_["e"] - 1) < 1e-3 or e_["e"] > 20 or math.sin(e_["i"]) < 0.01:
+            usable = False
+        elif e_["e"] > 1 and (abs(e_["E"]) > 8 or form not in HYP_FORMS):
+            usable = False
+    if not usable and form not in MU_FREE:
+        return dict(nt=False, cls=cls + ["skipped:conic"])
+    k = max(conditioning(el_a), conditioning(el_b)) if form not in MU_FREE else 1.0
+    tol = 3e-10 * k + 3e-9
+
+    held = sv.copy(form=form)
+    routes = {}
+    g = held.copy(frame=b_fr)
+    if g.form.name != form or g.frame is not b_fr:
+        raise Violation("form-frame-meta", f"copy(frame=) of a {form} state gave {g.form.name} in {g.frame}")
+    routes["copy(frame=B).copy(form='cartesian')"] = g.copy(form="cartesian")
+    routes["copy(frame=B, form='cartesian')"] = held.copy(frame=b_fr, form="cartesian")
+    s2 = held.copy()
+    s2.frame = b_fr
+    if s2.form.name != form or s2.frame is not b_fr:
+        raise Violation("form-frame-meta", f"frame setter on a {form} state left {s2.form.name} in {s2.frame}")
+    s2.form = "cartesian"
+    routes["sv.frame = B; sv.form = 'cartesian'"] = s2
+    # the receiver is untouched
+    if not np.array_equal(np.asarray(held.base, float), np.asarray(sv.copy(form=form).base, float)):
+        raise Violation("source-mutated", "copy(frame=) changed the receiver")
+    worst = 0.0
+    for how, res in routes.items():
+        got = np.asarray(res.base, float)
+        if not np.all(np.isfinite(got)):
+            raise Violation("non-finite", f"{how}: {got.tolist()}")
+        dr = float(np.linalg.norm(got[:3] - want[:3])) / float(np.linalg.norm(want[:3]))
+        dv = float(np.linalg.norm(got[3:] - want[3:])) / float(np.linalg.norm(want[3:]))
+        worst = max(worst, dr / tol, dv / tol)
+        if dr > tol or dv > tol:
+            raise Violation("form-frame-commute",
+                            f"{form} state from {a_fr.name} (mu {float(a_fr.center.body.mu):.6g}) to {b_fr.name} "
+                            f"(mu {float(b_fr.center.body.mu):.6g}) by {how}: position off by {dr:.3g}, velocity by "
+                            f"{dv:.3g} relative to the cartesian state converted directly (tol {tol:.3g})")
+    if el_a["e"] > 1 or el_b["e"] > 1:
+        cls.append("hyperbolic")
+    return dict(nt=not same_body and form not in MU_FREE, cls=cls, ratio=worst)
+
+
 # ----------------------------------------------------------------- registration
 
 LEVEL_TEXT = ("Property-based search: every ordered pair (sampled triples) of built-in, topocentric, "
@@ -949,6 +1118,9 @@ FACETS = [
     Facet("eop_switch", switch_case, check_switch, setup=setup_switch,
           rule="at least two different configurations (or a synthetic one) on the same calendar date, one process",
           quick=(8, 30), thorough=(16, 500)),
+    Facet("forms_across_bodies", bodies_case, check_bodies, setup=setup_bodies,
+          rule="state held in a mu-dependent form, frames about bodies with different mu",
+          quick=(8, 60), thorough=(16, 1500)),
     Facet("reregister", rereg_case, check_rereg,
           rule="every case: a station name and an orbit-frame name each used twice", quick=(6, 7), thorough=(48, 7)),
 ]
